@@ -2,7 +2,7 @@
 # try_wave.sh <suffix> <tier> <ids...>: runs the check of each property against variants c and d delivered in /tmp/mut/<id><suffix>/_out
 sfx=$1; tier=$2; shift; shift
 for p in "$@"; do
-  for v in c d; do
+  for v in ${VARIANTS:-c d}; do
     f=/tmp/mut/${p}${sfx}/_out/$v/patch.diff
     [ -f $f ] || continue
     r=$(MUTREPO=${MUTREPO:-/tmp/mutrepo3} python3 /verif/tools/trymutant.py $f $tier $p 2>&1 | grep -a -E "^(C[0-9]+ rc=|PATCH)" | cut -c1-260)
